@@ -1,6 +1,6 @@
 ---------------------------- MODULE TraceReverse ----------------------------
 (* C12: the reverse proxy routes matching requests to a configured upstream, as documented.                              *)
-(* A case is one client connection (1..2 requests, lock step) through the REAL handler + ReverseProxy with a synthesised   *)
+(* A case is one client connection (1..4 requests, lock step) through the REAL handler + ReverseProxy with a synthesised   *)
 (* ReverseProxyBasePlugin.  routes: Seq of [kind ("static" | "dynurl" | "dynbytes"), prefix, urls] - a route matches a       *)
 (* path iff the path starts with its prefix (the regular expressions used are literal prefixes).                           *)
 (* Per request k the harness recorded: conns[k] (outbound connection attempts made while it was handled, as they reach the  *)
